@@ -12,13 +12,55 @@ from ..main import PropSpec
 from .c07 import make_pool, expected, multiset_diff, inputs_of, _inner_fn, _FUNCS, NSCHED
 
 
-def h_report(W, N, E, D, retry, retres, poison, failing, dup, s0, s1, s2, s3, s4, s5, s6, s7, s8, s9, s10, s11):
+def h_report(W, N, E, D, retry, retres, poison, failing, dup, s0, s1, s2, s3, s4, s5, s6, s7, s8, s9, s10, s11, restart=0):
     with notrace():
-        return _h_report(W, N, E, D, retry, retres, poison, failing, dup, [s0, s1, s2, s3, s4, s5, s6, s7, s8, s9, s10, s11])
+        return _h_report(W, N, E, D, retry, retres, poison, failing, dup, [s0, s1, s2, s3, s4, s5, s6, s7, s8, s9, s10, s11], restart)
 
 
-def _h_report(W, N, E, D, retry, retres, poison, failing, dup, ss):
+def _after_restart(pool, env, E, retry):
+    """restart_workers() after the first run, then another run: every worker is alive again (under a new identity), so PoolError
+    is sound only if the deaths of *this* run leave nobody."""
+    try:
+        pool.restart_workers()
+    except Exception as e:  # noqa
+        return "c08.after-restart.restart_workers-raises-%s" % type(e).__name__
+    env.deaths_left = env.sched.pick(2)
+    env.poison = None
+    env.lost, env.refused = [], []
+    inputs = [100, 101]
+    try:
+        ret = pool.run(iter(inputs), worker_extra_pending_inputs=E)
+    except PoolError as e:
+        survivors = [w.idx for w in env.workers if w.alive and w.id not in pool._closed]
+        if survivors:
+            return "c08.after-restart.poolerror-with-live-worker"
+        ret = e.partial_results
+        if ret is None:
+            return "c08.after-restart.partial-results-missing"
+        _, extra = multiset_diff(ret, [poolenv.target(x) for x in inputs])
+        return "c08.after-restart.partial-results-not-genuine" if extra else None
+    except vos.Hang:
+        return "c08.after-restart.blocks-forever"
+    except Exception as e:  # noqa
+        return "c08.after-restart.raises-%s-in-%s" % (type(e).__name__, _inner_fn(e))
+    if ret is None:
+        return "c08.after-restart.returns-None"
+    missing, extra = multiset_diff(ret, [poolenv.target(x) for x in inputs])
+    if extra:
+        return "c08.after-restart.result-not-genuine-or-duplicated"
+    if missing and retry:
+        return "c08.after-restart.missing-result-with-retry"
+    return None
+
+
+def _h_report(W, N, E, D, retry, retres, poison, failing, dup, ss, restart=0):
+    out = _h_report1(W, N, E, D, retry, retres, poison, failing, dup, ss, restart)
+    return out
+
+
+def _h_report1(W, N, E, D, retry, retres, poison, failing, dup, ss, restart):
     vos.reset()
+    restart = conc(restart, 2)
     W = max(1, conc(W, 4))
     N = conc(N, 7)
     E = conc(E, 3)
@@ -49,6 +91,15 @@ def _h_report(W, N, E, D, retry, retres, poison, failing, dup, ss):
     ev(kind)
     interesting = any(e[0] == "dead" for e in env.events)
     exp = expected(N, dup=dup)
+    if restart and kind in ("ret", "poolerror"):
+        # judged before the first run's own clauses: the first run is judged by the paths with restart == 0
+        sig2 = _after_restart(pool, env, E, retry)
+        for e in env.events:
+            if e[0] == "dead":
+                ev(*e)
+        if sig2 is not None:
+            return Outcome(sig2 + ("|after-failed-run" if kind == "poolerror" else "|after-successful-run"), True)
+        return Outcome(None, interesting)
     if kind == "hang":
         return Outcome("c08.report.%s" % ("spins" if "spin" in val[1] else "blocks-forever"), True, str(val))
     if kind == "exc":
@@ -98,7 +149,7 @@ def _h_report(W, N, E, D, retry, retres, poison, failing, dup, ss):
 
 
 _params = OrderedDict([("W", (1, 3)), ("N", (0, 6)), ("E", (0, 2)), ("D", (0, 3)), ("retry", (0, 1)), ("retres", (0, 1)),
-                       ("poison", (0, 6)), ("failing", (0, 3)), ("dup", (0, 2))] + [("s%d" % i, (0, 5)) for i in range(NSCHED)])
+                       ("poison", (0, 6)), ("failing", (0, 3)), ("dup", (0, 2))] + [("s%d" % i, (0, 5)) for i in range(NSCHED)] + [("restart", (0, 1))])
 
 H_REPORT = Harness(
     "report", "vf.props.c08:h_report", _params,
@@ -107,6 +158,7 @@ H_REPORT = Harness(
                   "fixed": {"s8": 0, "s9": 0, "s10": 0, "s11": 0},
                   "partition": ["W", "N", "E", "D", "retry", "retres", "dup"], "timeout": 400,
                   "filter": (lambda f: f["dup"] == 0 or (f["N"] in (2, 3) and f["D"] == 1 and f["retres"] == 1)),
+                  "extra_pre": ["restart == 0 or (N <= 1 and E == 0 and dup == 0 and retres == 1 and retry == 1 and poison == 0 and failing == 0)"],
                   "twin_fixed": {"W": 2, "N": 3, "E": 1, "D": 1, "retry": 0, "retres": 1, "dup": 0}},
         "thorough": {"ranges": {"W": (1, 3), "N": (0, 4), "E": (0, 2), "D": (0, 2), "poison": (0, 4), "failing": (0, 3), "dup": (0, 2)},
                      "partition": ["W", "N", "E", "D", "retry", "retres", "dup"],
@@ -114,7 +166,8 @@ H_REPORT = Harness(
                                 and (f["D"] <= 1 or f["N"] <= 3) and (f["dup"] == 0 or (f["N"] in (2, 3) and f["D"] == 1 and f["retres"] == 1 and f["W"] == 2))),
                      "extra_pre": ["(poison > 1) + (failing > 1) <= 1",
                                    # the largest cells (three workers with a death, or two deaths, on three inputs) keep the quick-tier menus of poison/failing
-                                   "(W < 3 and D < 2) or N < 3 or (poison <= 1 and failing <= 1)"],
+                                   "(W < 3 and D < 2) or N < 3 or (poison <= 1 and failing <= 1)",
+                                   "restart == 0 or (N <= 2 and dup == 0 and retres == 1 and W <= 2 and poison <= 1 and failing <= 1)"],
                      "timeout": 1200, "twin_fixed": {"W": 2, "N": 3, "E": 1, "D": 1, "retry": 0, "retres": 1, "dup": 0}},
     },
     functions=_FUNCS,
@@ -125,10 +178,12 @@ SPEC = PropSpec(
     assumptions=[
         "environment of C07 (vf/poolenv.py) without a user enqueue function; death causes: external kill (bare EOF, also discovered at enqueue time), "
         "poison input (end marker), worker-specific failure (dies on the first input it processes)",
+        "restart == 1: after the first run the real Pool.restart_workers() is called (the fakes come back alive under a new identity on a new pipe, "
+        "as PersistentWorker.restart does), then two more inputs are run with a fresh budget of 0-1 deaths and judged by the same clauses",
         "'every worker dead or closed' is read off the fakes' alive flags and the pool's closed set at the moment PoolError is raised",
         "'handed or being handed to a worker that died' = the environment's record of inputs sitting in a dead worker's inbox or refused by a dead worker",
     ],
-    outside=["real workers", "user enqueue functions"],
+    outside=["real workers (C09 drives real ones)", "user enqueue functions"],
     stubs=["poolenv.Env / FakePW / Conn", "time.sleep no-op"],
     technique="CrossHair/z3 symbolic execution of the real Pool.run against a symbolic-schedule environment",
 )
